@@ -12,7 +12,7 @@ from vp import sim as S
 ID = 'C11'
 RULE = ('Smallest powertrain (motor + one gear; in a fifth of the cases a self-locking worm drive that is held throughout, by '
         'overload or by a zero duty cycle; a continuation may use a new Solver object). Hypothesis draws dt = m * 10^-e (m 1..999, e 0..4) in each of the 4 '
-        'time units, n = 2..200 steps, T written either as the float product dt*n or as the decimal literal of '
+        'time units, n = 2..200 steps (part long-grids: 8192..150000 steps), T written either as the float product dt*n or as the decimal literal of '
         'm*n*10^-e, in the same or in another time unit; optionally a continuation (dt2, n2) built the same way, '
         'and optionally a stop condition. Oracle in exact rational seconds: a fresh run records n+1 instants, '
         'time[0] = 0, time[k] = k*dt, the last equals T and none exceeds T; a continuation appends n2 instants dt2 '
@@ -160,9 +160,9 @@ def _finish(res, case):
 
 
 @st.composite
-def s_run(draw, max_n=200):
+def s_run(draw, max_n=200, min_n=2):
     unit = draw(st.sampled_from(list(U.UNITS['TimeInterval'])))
-    r = {'m': draw(st.integers(1, 999)), 'e': draw(st.integers(0, 4)), 'n': draw(st.integers(2, max_n)),
+    r = {'m': draw(st.integers(1, 999)), 'e': draw(st.integers(0, 4)), 'n': draw(st.integers(min_n, max_n)),
          'unit': unit, 't_form': draw(st.sampled_from(['product', 'literal'])),
          't_unit': unit if draw(st.integers(0, 2)) else draw(st.sampled_from(list(U.UNITS['TimeInterval'])))}
     if draw(st.integers(0, 5)) == 0:
@@ -186,7 +186,20 @@ def s_case(draw, max_n=200):
     return c
 
 
+@st.composite
+def s_case_long(draw, max_n):
+    """tens of thousands of steps: the rounding of T/dt grows with the step count, the guard must grow with it"""
+    c = draw(s_run(max_n, min_n=8192))
+    if draw(st.integers(0, 2)) == 0:
+        c['cont'] = draw(s_run(max_n, min_n=8192))
+        c['cont']['new_solver'] = draw(st.booleans())
+    c['stop'] = None
+    return c
+
+
 def parts(tier):
     if tier == 'quick':
-        return [Part('grids', check, strategy=s_case(100), examples=600, shards=4)]
-    return [Part('grids', check, strategy=s_case(200), examples=6000, shards=16)]
+        return [Part('grids', check, strategy=s_case(100), examples=600, shards=4),
+                Part('long-grids', check, strategy=s_case_long(30000), examples=6, shards=4)]
+    return [Part('grids', check, strategy=s_case(200), examples=6000, shards=16),
+            Part('long-grids', check, strategy=s_case_long(150000), examples=20, shards=16)]
